@@ -263,6 +263,9 @@ class Builder:
         if k == "Pragma":
             return pt.Pragma(B(a[0]), compiler_version=node.get("s") or ">=0.1.0")
         if k == "Nonce":
+            if node.get("s"):                      # "<base>:<text>" - any base / text the user may write
+                base, text = node["s"].split(":", 1)
+                return pt.Nonce(base, text, B(a[0]))
             return pt.Nonce("base16", bytes(node["n"]).hex(), B(a[0]))
         raise ValueError("replay: unknown kind %r" % k)
 
